@@ -1,5 +1,18 @@
 package client
 
+import "net/url"
+
 type pcError struct {
 	Error string `json:"error"`
+}
+
+// pathSegment makes a process name usable as one segment of a request path: a name may
+// contain characters ('%', '?', '#', ' ') that would otherwise end or corrupt the path.
+func pathSegment(name string) string {
+	return url.PathEscape(name)
+}
+
+// queryValue makes a process name usable as the value of a query parameter.
+func queryValue(name string) string {
+	return url.QueryEscape(name)
 }
